@@ -26,13 +26,13 @@ PROPS = {
     },
     "C10": {
         "gen": [["f64", "f62", "f128"]],
-        "extra_props": ["C10F62"],
+        "extra_props": ["C10F62", "C10F128"],
         "streams": [("c10", 60, 3000)],
         "trusted": [TIE_C,
                     "translator tie: tools/rs2lean.py regenerates lean/Wf/Gen/F64.lean from math/src/field/f64/mod.rs on every run (kernels new/add/sub/mul/neg/double/mul_small/mont_red_cst/mont_to_int/equals as BitVec code with release semantics; exp7, the inversion chain and the quadratic/cubic extension formulas as polymorphic FieldOps code); the theorems are stated about those generated definitions",
                     "bit-level lemmas in lean/Wf/Lemmas/F64Bv.lean are closed by bv_decide (SAT + LRAT certificate checked by ofReduceBool: one `._native.bv_decide.ax_*` axiom each, listed above)",
-                    "f62 (lean/Wf/Props/C10F62.lean, lean/Wf/Lemmas/F62{,Bv}.lean): add/sub/mul/normalize/new/double/as_int/neg/eq/inv are regenerated into lean/Wf/Gen/F62.lean (`impl Neg`, `impl PartialEq` and `inv` included; every `while` of inv is bounded by 256 iterations, Wf.whileFuel in lean/Wf/Model/While.lean) and the theorems are about those definitions for every stored word in [0, 2p); add/sub/neg/double/normalize bit-level facts by bv_decide, Montgomery multiplication at Nat level (omega + core lemmas, no SAT); inv is PARTIAL (zeros, range, final R3 correction; no proof that the Euclid loops produce the inverse); the driver runs the generated neg/eq/inv for the base field f62, the f62 extensions use the hand-written F62.baseOps (neg = sub 0, Fermat inversion)",
-                    "f128 limb kernels (add/sub/mul/new; mul with its 192-bit helper functions) and the f62 / f128 extension formulas ARE regenerated from source and executed by the driver; the f128 binary-GCD inv is replaced by Fermat inversion in the model; the generic extension wrappers (QuadExtension/CubeExtension add/sub/neg/inv/conjugate) and the exponentiation loops are hand-modelled (value-level spec model lean/Wf/Model/PrimeSpec.lean, lean/Wf/Model/Fields.lean) and tied by correspondence only"],
+                    "f62 (lean/Wf/Props/C10F62.lean, lean/Wf/Lemmas/F62{,Bv}.lean): add/sub/mul/normalize/new/double/as_int/neg/eq/inv are regenerated into lean/Wf/Gen/F62.lean (`impl Neg`, `impl PartialEq` and `inv` included; every `while` of inv is bounded by 256 iterations, Wf.whileFuel in lean/Wf/Model/While.lean) and the theorems are about those definitions for every stored word in [0, 2p); add/sub/neg/double/normalize bit-level facts by bv_decide, Montgomery multiplication at Nat level (omega + core lemmas, no SAT); inv (binary extended Euclid) is proved correct by a loop invariant over ZMod p (lean/Wf/Lemmas/F62Inv.lean: Mathlib + the primality certificate of lean/Wf/Lemmas/Primes.lean; variants show the 256-iteration bound of the translation is never reached), hence Div; the driver runs the generated neg/eq/inv for the base field f62, the f62 extensions use the hand-written F62.baseOps (neg = sub 0, Fermat inversion)",
+                    "f128 (lean/Wf/Props/C10F128.lean, lean/Wf/Lemmas/F128{,Bv}.lean): add/sub/mul/new/neg/as_int and the seven 64-bit limb helpers of mul (add64_with_carry, add_192x192, sub_192x192, sub_modulus, mul_by_modulus, mul_reduce, mul_128x64) are regenerated into lean/Wf/Gen/F128.lean and the theorems are about those definitions: add/sub/neg for every pair of reduced words, new for every u128, each helper's exact integer meaning for ALL limb inputs, and mul = a*b mod p composed from the helpers for every reduced a and every u128 b; add/sub/new, the 192-bit borrow chain, sub_modulus and the final limb-wise comparison are bit-level facts closed by bv_decide (six axioms, no multiplier inside), the 64x64 products and the whole composition are at Nat level (omega + core lemmas); the tuple patterns of the generated mul are turned into projections by propositional rewriting so that the kernel never evaluates the body; the f128 binary-GCD inv is NOT translated (rs2lean.py rejects its untyped `(0, 0, 0)` initialiser) and is replaced by Fermat inversion in the model (correspondence only); the f62 / f128 extension formulas ARE regenerated from source and executed by the driver (f128 quadratic formula = multiplication modulo x^2 - x - 1 over any commutative ring); the generic extension wrappers (QuadExtension/CubeExtension add/sub/neg/inv/conjugate) and the exponentiation loops are hand-modelled (value-level spec model lean/Wf/Model/PrimeSpec.lean, lean/Wf/Model/Fields.lean) and tied by correspondence only"],
         "assumptions": ["Rust release semantics (wrapping) for the f64 / f62 kernels (the f62 theorems show that no operation on words in [0, 2p) wraps); `from_mont` is used within its documented precondition (value < M)"],
         "rule": "requests = (field, op, operands); operands biased to 0, 1, p-1, (p-1)/2, 2^32 and 2^63 bands and, for f64, to raw Montgomery words around every case split of the proofs; `rep` requests (all three fields and five extensions): operands written as operation chains (both f62 words of zero via x + (-x) and new(p-1) + ONE, -ZERO, -(x + (-x)), x - x, ZERO - ZERO, (-x) + x, (x + y) - y, double(x) - (x + x), ...), exhaustively over all pairs of zero forms and randomly, each result compared with the oracle through as_int, through the library's own == against new(expected) and through to_bytes() against the canonical little-endian bytes; non-trivial = distinct request line",
     },
@@ -141,7 +141,11 @@ PROPS = {
         "rule": "requests = tdiv: from_transition for n = 8..64 with EVERY exemption count 0..n (n <= 16) / boundary counts, evaluated at EVERY trace-domain point and at out-of-domain points (coset, 2n-th root, random), sampled points for n up to 2^16, three base fields; deg: every (base 0..9, cycle set incl. invalid ones, n); ctx: AirContext for base 1..8 x cycle sets x exemptions 0..base+2 and n/2..n/2+2 x blowups, multi-degree lists, random mixtures (outcome incl. the assertion that fires, ce blowup, column count, divisor degree); per: periodic columns of every cycle length 2..n at EVERY step for n <= 64, rejected lengths, sampled steps for n up to 2^12; oracles from definitions in independent u128 arithmetic (product over non-exempt domain points; least column count holding deg+1 coefficients; values[s mod len]); non-trivial = distinct request line",
     },
     "C22": {
-        "streams": [("c22", 4, 24)],
+        "streams": [("c22", 4, 24),
+                    # the prover-side boundary evaluator (sequences of >= 64 values take a separate code path):
+                    # honest end-to-end proofs with long sequence assertions, every first-step/stride shape,
+                    # LDE blowup above the constraint-evaluation blowup (answered by the ideal verdict model)
+                    ("c22p", 12, 120)],
         "trusted": [TIE_C,
                     "model of BoundaryConstraint::new / evaluate_at, BoundaryConstraintGroup and BoundaryConstraints::new / group_constraints (BTreeMap = key-sorted entry list) in lean/Wf/Model/Boundary.lean, on top of the C21 model of Assertion / prepare_assertions and the C23 model of ConstraintDivisor::from_assertion; main trace segment only (auxiliary assertions use the same generic code with F = E)",
                     "fft::interpolate_poly is NOT modelled operationally: the driver runs its specification idft and the stream compares value polynomials coefficient by coefficient; the sequence-assertion theorems are stated relative to the hypothesis that the interpolated list has the same length and passes through the values on the subgroup generated by g^stride, and proved unconditionally for idft (lean/Wf/Lemmas/Idft.lean); that the FFT code computes idft is C12/C13; get_root_of_unity(log2 len) = g^stride is the C11 root coherence (not re-proved: the driver takes both roots from the C11 model of get_root_of_unity)",
@@ -208,7 +212,7 @@ PROPS = {
                     "the algebraic theorems are over any Mathlib Field through the ringOps bridge; that f64/f62/f128 and extensions are such fields with the stated roots of unity is C10/C11's business (the driver runs the model over the limb-level instances)",
                     "request lines with op `e2e` / `e2e_incompat` are ORACLE-ONLY (`e2e_incompat` = the same runs on parameter tuples on which the domain cannot be folded in whole steps down to the remainder size: recorded finding c08_e2e_incompat*, the honest prover panics, oracle still `accept`): the real FriProver/DefaultProverChannel/FriVerifier/DefaultVerifierChannel run on data the model does not see and the driver answers the ideal verdict from the parameters alone (abort if the honest prover is undefined on them, accept iff degree <= declared bound and the degree bookkeeping divides evenly); all other ops (foldpos, mapidx, nlayers, drp, vfold, rem, verify) are recomputed by the model; `verify` lines carry the whole transcript extracted from the real proof (positions, queried evaluations, replayed alphas, opened rows, remainder) and the model re-runs the verifier algebra on it"],
         "assumptions": ["collision resistance / binding of the vector commitment is outside this property (merkleOk, remainderOk are inputs)", "64-bit usize without overflow"],
-        "rule": "requests = fold_positions / map_positions_to_indexes on random multisets incl. folding factor 0, target size 0, partitions 0/1/3/2^k; num_fri_layers for every (blowup, folding, remainder degree) x every power-of-two domain up to 2^20 and boundary sizes; apply_drp (prover path) and coset interpolation (verifier path) of the same random vectors for N in {2,4,8,16} x 1..8 rows x 8 fields against a coefficient-form oracle; remainder polynomials for lengths 2..32 x blowups; end-to-end honest runs over f64/f62/f128, quadratic and cubic extensions, Blake3/SHA3/Rp64_256, every folding factor x every remainder degree 0..255, blowup 2..16, domains 2^3..2^12 (2^14 thorough), polynomials of degree = bound, bound-1, half, random, linear, constant, zero (dense/monomial/sparse), positions drawn from the channel or explicit multisets (repeats of one position, whole cosets, boundaries, all positions, heavy duplicates), proof verified before and after to_bytes/read_from; small cases additionally as full transcripts; non-trivial = distinct request line",
+        "rule": "requests = fold_positions / map_positions_to_indexes on random multisets incl. folding factor 0, target size 0, partitions 0/1/3/2^k; num_fri_layers for every (blowup, folding, remainder degree) x every power-of-two domain up to 2^20 and boundary sizes; apply_drp (prover path) and coset interpolation (verifier path) of the same random vectors for N in {2,4,8,16} x 1..8 rows x 8 fields against a coefficient-form oracle; remainder polynomials for lengths 2..32 x blowups; end-to-end honest runs over f64/f62/f128, quadratic and cubic extensions, Blake3/SHA3/Rp64_256, every folding factor x every remainder degree 0..255, blowup 2..16, domains 2^3..2^12 (2^14 thorough), polynomials of degree = bound, bound-1, half, random, linear, constant, zero (dense/monomial/sparse), positions drawn from the channel or explicit multisets (repeats of one position, whole cosets, boundaries, all positions, heavy duplicates, and collision-rich sets: pairs sharing a row at folding depth 0 / 1 / 2 and duplicated positions in random order, systematically for every folding factor), proof verified before and after to_bytes/read_from; small cases additionally as full transcripts; non-trivial = distinct request line",
     },
     "C09": {
         "streams": [("c09", 4, 40)],
@@ -218,7 +222,7 @@ PROPS = {
                     "for the adaptive attack a second `verify` line with remainderOk forced to 1 is sent: the model answers `ok` (the substituted remainder is consistent with every queried point), the implementation column of that line is `ok` iff the real verifier's only complaint was RemainderCommitmentMismatch (which it raises after all layer checks passed)",
                     "tampered proofs are built by editing FriProof::to_bytes at computed offsets (the constructors are crate-private) and re-reading them"],
         "assumptions": ["rejection of a far-from-low-degree vector is probabilistic over the drawn positions; the stream uses 24..40 queries drawn by the real channel coin", "collision resistance of the hash (a changed row / remainder changes its digest)"],
-        "rule": "requests = honest prover on evaluations of degree bound+1, 2*bound, domain-1 polynomials and random functions; declared bound below the true degree (by 1..9: DegreeTruncation / RemainderDegreeMismatch; 3/4 and 1/2 of the true bound; verifier channel built for the true or the claimed domain); honest transcript with one queried layer value altered, one remainder coefficient altered, the remainder replaced by h + t*prod(x - x_p) over the folded last-layer positions (adaptive, needs fewer positions than remainder coefficients), the last proof layer dropped (xdrop) or repeated (xextra: rejected by the channel constructor, no panic); all over the 13 field/hasher combinations, every folding factor, remainder degrees 0..255; oracle = reject (never accept, never panic); non-trivial = distinct request line",
+        "rule": "requests = honest prover on evaluations of degree bound+1, 2*bound, domain-1 polynomials and random functions; declared bound below the true degree (by 1..9: DegreeTruncation / RemainderDegreeMismatch; 3/4 and 1/2 of the true bound; verifier channel built for the true or the claimed domain); honest transcript with one queried layer value altered, one remainder coefficient altered, the remainder replaced by h + t*prod(x - x_p) over the folded last-layer positions (adaptive, needs fewer positions than remainder coefficients), the last proof layer dropped (xdrop) or repeated (xextra: rejected by the channel constructor, no panic); ONE caller-supplied query evaluation altered (xeval: first / last / random index, and - on position sets with a deliberate collision - the later-listed or the earlier-listed partner) and the opened layer value of ONE partner of a colliding pair altered in the layer where the two share a row (xlayerc), on position multisets containing p and p + k*(domain/folding) for several k, pairs that meet only after one or two folds, the same position twice or three times, partners in both orders, for every folding factor 2/4/8/16 in turn; all over the 13 field/hasher combinations, every folding factor, remainder degrees 0..255; oracle = reject (never accept, never panic); non-trivial = distinct request line",
     },
     "C01": {
         "streams": [("c01", 160, 1500)],
@@ -265,13 +269,18 @@ PROPS = {
         "rule": "distinct mutated encodings x 4 field/hasher configurations; obj: decoders of every component on mutated and random bytes",
     },
     "C06": {
-        "streams": [("c06", 8, 60, {"oracle_only": True, "variants": [
-            {"features": ["concurrent"], "env": {"RAYON_NUM_THREADS": "1"}},
+        "streams": [("c06", 14, 84, {"oracle_only": True, "variants": [
             {"features": ["concurrent"], "env": {"RAYON_NUM_THREADS": "2"}},
-            {"features": ["concurrent"], "env": {"RAYON_NUM_THREADS": "16"}}]})],
-        "trusted": ["cross-build comparison: the same seeded instances are proved by the serial harness build and by the `concurrent` build under RAYON_NUM_THREADS = 1, 2, 16; digests of context, commitments, OOD frame, the nonce and the whole proof must coincide (grinding is 0, so whole proofs must be byte-identical)",
+            {"features": ["concurrent"], "env": {"RAYON_NUM_THREADS": "3"}},
+            {"features": ["concurrent"], "env": {"RAYON_NUM_THREADS": "5"}},
+            {"features": ["concurrent"], "env": {"RAYON_NUM_THREADS": "16"}},
+            {"features": ["concurrent"], "env": {"RAYON_NUM_THREADS": "1"}, "tiers": ["thorough"]},
+            {"features": ["concurrent"], "env": {"RAYON_NUM_THREADS": "6"}, "tiers": ["thorough"]},
+            {"features": ["concurrent"], "env": {"RAYON_NUM_THREADS": "7"}, "tiers": ["thorough"]},
+            {"features": ["concurrent"], "env": {"RAYON_NUM_THREADS": "12"}, "tiers": ["thorough"]}]})],
+        "trusted": ["cross-build comparison: the same seeded instances (exact trace lengths 2^5..2^13, every second one with periodic cycles up to the trace length) are proved by the serial harness build and by the `concurrent` build under RAYON_NUM_THREADS = 2, 3, 5, 16 (thorough: also 1, 6, 7, 12); digests of context, commitments, OOD frame, the nonce and the whole proof must coincide (grinding is 0, so whole proofs must be byte-identical)",
                     "the async prover variant (maybe_async) is NOT covered"],
-        "assumptions": ["scheduler behaviour is explored at 3 thread counts, not proved; bookkeeping theorems live in C14/C12/C18"],
+        "assumptions": ["scheduler behaviour is explored at 4 (thorough: 8) thread counts incl. non-powers of two, not proved; bookkeeping theorems live in C14/C12/C18"],
         "rule": "instances with trace lengths up to 2^13 (both sides of the 1024-row / 8192-evaluation thresholds), several fields/hashers",
     },
     "C28": {
@@ -305,3 +314,32 @@ PROPS = {
         "rule": "requests = (hasher, op, input), each value-level case sent to the model twice (reference round function / translated code): apply_permutation on states biased to 0, 1, p-1, 2^32 bands, 2^(32+k)+-1, >= p and random (Rp62_248 through hash_elements of one rate block); apply_permutation and apply_round(r) on stored Montgomery words biased to the limb split (high limb 2^32-1, low limb 0 / 2^32-1) and on ENGINEERED states whose first mds_multiply emits a non-canonical word (sum m_j*hi_j = 2^32-1, 0 < sum m_j*lo_j < 2^32; inner words compared exactly); hash on EVERY length 0..120 (all residues mod 7 and mod 7*rate, incl. 57, 63, 64, 100, 112 of fix af8c1d8) + 167..169, 224, 225 + random <= 420; hash_elements on every length 0..3*rate+1 + random; merge / merge_many of 0..8 digests (zero, p-1, biased); merge_with_int on 0, 1, 2^32+-1, 2^63, p-1, p, p+1, 2p+-1 (f62), 2^64-1 and pairs x, x+p; non-trivial = distinct request line",
     },
 }
+
+# ---------------------------------------------------------------------------------------------------
+# cross-build variant with arithmetic overflow checks (profile `relcheck` of the harness crate =
+# release + overflow-checks, i.e. what `cargo test` / debug builds enforce): the same stream must give
+# the same answers; a difference is an overflow that is reachable from the stream's inputs
+# ---------------------------------------------------------------------------------------------------
+_RELCHECK = {"features": [], "profile": "relcheck"}
+for _pid in ("C03", "C04", "C05", "C07", "C08", "C09", "C13", "C14", "C18", "C19", "C20", "C21", "C22", "C23",
+             "C24", "C25", "C26", "C27", "C29"):
+    _new = []
+    for _e in PROPS[_pid]["streams"]:
+        _opts = dict(_e[3]) if len(_e) > 3 else {}
+        _v = dict(_RELCHECK)
+        if _pid in ("C18", "C19"):
+            # single-opening `MerkleTree::verify` is specified for IN-RANGE indexes and proofs of the
+            # tree's depth only (C19); with an index near usize::MAX or >= 64 proof nodes its
+            # `index + 2^len` overflows, which release builds wrap (theorem
+            # verify_ignores_high_index_bits) and overflow-checked builds turn into a panic
+            _v["skip"] = r"^c18 xverify "
+        _opts["variants"] = list(_opts.get("variants", [])) + [_v]
+        _new.append((_e[0], _e[1], _e[2], _opts))
+    PROPS[_pid]["streams"] = _new
+
+# C14: the `plan` op prints the batching schedule of batch_iter_mut! (offsets and batch lengths), which
+# by design depends on the build and on the thread count; only RESULTS must coincide across builds
+for _e in PROPS["C14"]["streams"]:
+    for _v in _e[3].get("variants", []):
+        if "concurrent" in _v.get("features", []):
+            _v["skip"] = r"^c14 plan "
